@@ -224,7 +224,9 @@ def run(ch: Checker) -> None:
             nd = gn.nodes[nid]
             if nd.kind == 'test' and lab in (True, False):
                 t = norm(nd.ast).replace(' ', '')  # type: ignore[arg-type]
-                if t in ("%s[0].startswith('[')" % ap, "%s[0].endswith(']')" % ap) and lab is False:
+                fdb = allfacts(p, sidx + 1)
+                both = ("%s[0].startswith('[') and %s[0].endswith(']')" % (ap, ap), "%s[0].endswith(']') and %s[0].startswith('[')" % (ap, ap))
+                if fdb.get("%s[0].startswith('[')" % ap) is False or fdb.get("%s[0].endswith(']')" % ap) is False or any(fdb.get(b_) is False for b_ in both):
                     stripped, how = True, 'not bracketed'
                 e = sym.value(nd.ast, sidx)  # type: ignore[arg-type]
                 if any(isinstance(c, ast.Call) and isinstance(c.func, ast.Attribute) and c.func.attr in ('match', 'fullmatch') for c in ast.walk(e)):
@@ -265,12 +267,14 @@ def run(ch: Checker) -> None:
                                 bad5 = ('the fall-through resolves %s instead of the address it was given' % a0, p.describe(16))
                         if isinstance(c.func, ast.Attribute) and c.func.attr == 'connect' and attr_chain(c.func) != 'socket.create_connection':
                             v4 = allfacts(p, sidx).get('ip.version == 4')
-                            a0 = norm(c.args[0]).replace(' ', '') if c.args else ''
-                            sock = [norm(s_.value) for j, s_ in p.stmts() if j < sidx and isinstance(s_, ast.Assign) and norm(s_.targets[0]) == norm(c.func.value)]
+                            a0 = norm(sym.value(c.args[0], sidx)).replace(' ', '') if c.args else ''
+                            want4 = norm(sym.value(ast.Name(id=ap, ctx=ast.Load()), sidx)).replace(' ', '')
+                            want6 = norm(sym.value(ast.parse('(%s[0], %s[1], 0, 0)' % (ap, ap), mode='eval').body, sidx)).replace(' ', '')
+                            sock = [norm(sym.value(s_.value, j)) for j, s_ in p.stmts() if j < sidx and isinstance(s_, ast.Assign) and norm(s_.targets[0]) == norm(c.func.value)]
                             famt = 'AF_INET6' if sock and 'AF_INET6' in sock[-1] else 'AF_INET'
-                            if v4 is True and not (famt == 'AF_INET' and a0 == ap):
+                            if v4 is True and not (famt == 'AF_INET' and a0 == want4):
                                 bad5 = ('IPv4 literal: socket family %s, connect(%s)' % (famt, a0), p.describe(16))
-                            if v4 is False and not (famt == 'AF_INET6' and a0 == '(%s[0],%s[1],0,0)' % (ap, ap)):
+                            if v4 is False and not (famt == 'AF_INET6' and a0 == want6):
                                 bad5 = ('IPv6 literal: socket family %s, connect(%s)' % (famt, a0), p.describe(16))
     ch.check(bad2 is None and n2 > 0, 'C14.2', nsc, 'brackets removed before the socket layer', 'every sink is reached with an unbracketed host (%d sink-path(s))' % n2,
              bad2[0] if bad2 else 'no sink found', witness=bad2[1] if bad2 else None)
